@@ -282,3 +282,79 @@ for ch in ("A", "W"):
            functions=["uriParseIPv6address2" + ch], inlined=["uriStopSyntax" + ch, "uriFreeUriMembersMm" + ch, "uriWriteQuadToDoubleByte", "uriGetOctetValue"],
            stubs=["memory manager (ledger stub)", "memcpy/memset: CBMC models"], timeout_s=3000, mem_gb=(10 if k <= 8 else 24))
 
+
+# ----------------------------------------------------------------------------------------------------------------
+# C17  query lists (bounded part)
+for ch in ("A", "W"):
+    ob(id="DissectQuery.%s.H" % ch, props=["C17", "C13", "C14", "C19", "C20"], route="H", harness="c17_query.c", entry="h_dissect", char=ch,
+       group="uriDissectQueryMallocExMm: split positions, order, options, count, fault injection, release (uriAppendQueryItem replaced by its contract stub)",
+       defines=by_tier({"VN": 4}, {"VN": 6}), replace_bodies=[("uriAppendQueryItem" + ch, "append_query_item.c")],
+       unwindset=by_tier({"uriDissectQueryMallocExMm%s.*" % ch: 6, "uriFreeQueryListMm%s.*" % ch: 7},
+                         {"uriDissectQueryMallocExMm%s.*" % ch: 8, "uriFreeQueryListMm%s.*" % ch: 9}),
+       level="B", bounds=by_tier("query text of at most 4 characters, every allocation request may fail", "query text of at most 6 characters"),
+       functions=["uriDissectQueryMallocExMm" + ch, "uriFreeQueryListMm" + ch], inlined=["uriFreeQueryListMm" + ch],
+       stubs=["uriAppendQueryItem (contract stub stubs/append_query_item.c, discharged by AppendQueryItem.*.H)", "memory manager (ledger stub)"],
+       timeout_s=by_tier(900, 3600), mem_gb=10)
+    ob(id="AppendQueryItem.%s.H" % ch, props=["C17", "C13", "C14", "C19"], route="H", harness="c17_query.c", entry="h_append", char=ch,
+       group="uriAppendQueryItem (real, with the real uriUnescapeInPlaceEx): exact-size unescaped copies, NULL vs empty value, roll-back on refusal",
+       defines=by_tier({"VN": 3, "VSTUB_MEMCPY": 1}, {"VN": 5, "VSTUB_MEMCPY": 1}),
+       unwindset=by_tier({"uriUnescapeInPlaceEx%s.*" % ch: 5, "memcpy.*": 5, "uriFreeQueryListMm%s.*" % ch: 3}, {"uriUnescapeInPlaceEx%s.*" % ch: 7, "memcpy.*": 7, "uriFreeQueryListMm%s.*" % ch: 3}),
+       level="B", bounds=by_tier("key and value ranges of at most 3 characters (no '%')", "at most 5 characters"),
+       functions=["uriAppendQueryItem" + ch], inlined=["uriUnescapeInPlaceEx" + ch, "uriFreeQueryListMm" + ch], stubs=["memory manager (ledger stub)", "memcpy (element loop)"],
+       timeout_s=by_tier(900, 3600), mem_gb=(10 if ch == "A" else 24))
+    ob(id="QueryRoundTrip.%s.H" % ch, props=["C17", "C13", "C19"], route="H", harness="c17_query.c", entry="h_roundtrip", char=ch,
+       group="compose then dissect returns the list; legal characters; chars-required sufficient; written == length+1; nothing beyond maxChars",
+       defines=by_tier({"VI": 2, "VS": 1, "VSTUB_MEMCPY": 1}, {"VI": 2, "VS": 2, "VSTUB_MEMCPY": 1}),
+       unwindset=by_tier({"uriComposeQueryEngine%s.*" % ch: 3, "uriEscapeEx%s.*" % ch: 3, "uriDissectQueryMallocExMm%s.*" % ch: 16, "uriFreeQueryListMm%s.*" % ch: 4,
+                          "uriUnescapeInPlaceEx%s.*" % ch: 8, "memcpy.*": 8, "strlen.*": 3, "wcslen.*": 3},
+                         {"uriComposeQueryEngine%s.*" % ch: 3, "uriEscapeEx%s.*" % ch: 4, "uriDissectQueryMallocExMm%s.*" % ch: 30, "uriFreeQueryListMm%s.*" % ch: 4,
+                          "uriUnescapeInPlaceEx%s.*" % ch: 14, "memcpy.*": 14, "strlen.*": 4, "wcslen.*": 4}),
+       level="B", bounds=by_tier("2 items, keys/values of at most 1 character (code points 1..255, no line breaks when break normalization is on)",
+                                 "2 items, keys/values of at most 2 characters"),
+       functions=["uriComposeQueryEx" + ch, "uriComposeQueryCharsRequiredEx" + ch, "uriComposeQueryEngine" + ch, "uriDissectQueryMallocExMm" + ch, "uriAppendQueryItem" + ch],
+       inlined=["uriEscapeEx" + ch, "uriUnescapeInPlaceEx" + ch], stubs=["memory manager (ledger stub)", "memcpy (element loop)"],
+       timeout_s=by_tier(1500, 7200), mem_gb=by_tier(12, 24))
+
+# ----------------------------------------------------------------------------------------------------------------
+# C18  filename <-> URI string
+NOPTROVF = ["--bounds-check", "--pointer-check", "--signed-overflow-check", "--div-by-zero-check", "--undefined-shift-check",
+            "--no-malloc-may-fail", "--sat-solver", "cadical"]   # without --pointer-overflow-check: ISO C note `input - 1` (DESIGN 6)
+for ch in ("A", "W"):
+    for (entry, nm) in (("h_unix", "Unix"), ("h_windows", "Windows")):
+        ob(id="Filename%s.%s.H" % (nm, ch), props=["C18", "C19", "C20"], route="H", harness="c18_file.c", entry=entry, char=ch,
+           group="filename -> URI string -> filename: documented buffer sizes (exact-size blocks), shape/validity of the URI string, round trip",
+           defines=by_tier({"VF": 3, "VSTUB_MEMCPY": 1}, {"VF": 5, "VSTUB_MEMCPY": 1}), checks=NOPTROVF,
+           unwindset=by_tier({"uriFilenameToUriString%s.*" % ch: 5, "uriUriStringToFilename%s.*" % ch: 14, "uriEscapeEx%s.*" % ch: 5, "uriUnescapeInPlaceEx%s.*" % ch: 20,
+                              "memcpy.*": 20, "strlen.*": 20, "wcslen.*": 20, "strncmp.*": 9, "wcsncmp.*": 9},
+                             {"uriFilenameToUriString%s.*" % ch: 7, "uriUriStringToFilename%s.*" % ch: 20, "uriEscapeEx%s.*" % ch: 7, "uriUnescapeInPlaceEx%s.*" % ch: 26,
+                              "memcpy.*": 26, "strlen.*": 26, "wcslen.*": 26, "strncmp.*": 9, "wcsncmp.*": 9}),
+           level="B", bounds=by_tier("filenames of at most 3 characters (code points 1..255)", "filenames of at most 5 characters"),
+           functions=["uriFilenameToUriString" + ch, "uriUriStringToFilename" + ch, "uri%sFilenameToUriString%s" % (nm, ch), "uriUriStringTo%sFilename%s" % (nm, ch)],
+           inlined=["uriEscapeEx" + ch, "uriUnescapeInPlaceEx" + ch], stubs=["memcpy (element loop)"], timeout_s=by_tier(1500, 7200), mem_gb=by_tier(12, 24))
+    ob(id="FilenameShortForms.%s.H" % ch, props=["C18", "C19"], route="H", harness="c18_file.c", entry="h_shortforms", char=ch,
+       group="short forms file:/x and file:c:/x accepted on input", defines={"VF": 3, "VSTUB_MEMCPY": 1}, checks=NOPTROVF,
+       unwindset={"uriUriStringToFilename%s.*" % ch: 8, "uriUnescapeInPlaceEx%s.*" % ch: 8, "memcpy.*": 8, "strlen.*": 12, "wcslen.*": 12, "strncmp.*": 9, "wcsncmp.*": 9},
+       level="B", bounds="two fixed input shapes with one symbolic character", functions=["uriUriStringToFilename" + ch], timeout_s=600, mem_gb=6)
+
+# ----------------------------------------------------------------------------------------------------------------
+# C12 (+C07,C13,C14)  make-owner
+for ch in ("A", "W"):
+    ob(id="MakeOwner.%s.H" % ch, props=["C12", "C07", "C13", "C14", "C19", "C20"], route="H", harness="c12_makeowner.c", char=ch,
+       group="uriMakeOwnerMm: private copies of every non-empty range, content preserved, independence of the source, source never written, ledger, fault injection",
+       defines=by_tier({"VM": 2, "VL": 2, "VT": 4, "VSTUB_MEMCPY": 1}, {"VM": 3, "VL": 3, "VT": 5, "VSTUB_MEMCPY": 1}),
+       unwindset=by_tier({"uriMakeOwnerEngine%s.*" % ch: 4, "uriPreventLeakage%s.*" % ch: 4, "uriFreeUriMembersMm%s.*" % ch: 4, "uriMakeOwnerMm%s.*" % ch: 2, "memcpy.*": 3},
+                         {"uriMakeOwnerEngine%s.*" % ch: 5, "uriPreventLeakage%s.*" % ch: 5, "uriFreeUriMembersMm%s.*" % ch: 5, "uriMakeOwnerMm%s.*" % ch: 2, "memcpy.*": 4}),
+       level="B", bounds=by_tier("<=2 segments, <=2 characters per component, all host kinds, every allocation request may fail",
+                                 "<=3 segments, <=3 characters per component"),
+       functions=["uriMakeOwnerMm" + ch, "uriMakeOwnerEngine" + ch, "uriMakeRangeOwner" + ch, "uriPreventLeakage" + ch, "uriFreeUriMembersMm" + ch],
+       inlined=["all of the above"], stubs=["memory manager (ledger stub)", "memcpy (element loop)"], timeout_s=by_tier(1500, 7200), mem_gb=by_tier(12, 24))
+
+# ----------------------------------------------------------------------------------------------------------------
+# supporting static facts (route L: external checker on the goto binaries of the staged library)
+ob(id="static.no-direct-allocator-calls", props=["C13"], route="L", harness="", cmd=["python3", "{VERIF}/tools/static_scan.py", "allocs", "{SCRATCH}/clean"],
+   group="[S] call graph of the staged library: malloc/calloc/realloc/reallocarray/free are called only by the five uriDefault* functions",
+   level="P", bounds="none (syntactic fact about the goto binary)", functions=[], backend="goto-instrument --call-graph", rc1_is_violation=True, timeout_s=300)
+ob(id="static.no-writable-statics", props=["C20"], route="L", harness="", cmd=["python3", "{VERIF}/tools/static_scan.py", "statics", "{SCRATCH}/clean"],
+   group="[S] static-lifetime objects of the staged library are exactly the seven constant ones and no instruction assigns them by name",
+   level="P", bounds="none (syntactic fact about the goto binary)", functions=[], backend="goto-instrument --show-symbol-table / --show-goto-functions",
+   rc1_is_violation=True, timeout_s=300)
